@@ -9,7 +9,7 @@ import TrompModel.Model.Ring
 namespace Tromp.Cxx
 
 /-- `list<T, Disposer>::push_back` — translated from include/trompeloeil/mock.hpp:1610 -/
-def ring_push_back (this t : Ring.Ptr) (h0 : Ring.Heap) : Ring.Heap := Id.run do
+def ring_push_back (this t : Ring.Ptr) (h0 : Ring.Heap Ring.Ptr) : Ring.Heap Ring.Ptr := Id.run do
   let mut h := h0
   h := h.setPrev t (h.prev this)
   h := h.setNext t this
